@@ -81,6 +81,13 @@ class RunnerClient(Client):
     def relevant_iter(self, ev: Event) -> bool:
         # the attempt loop iterates range(...); loops over containers in helpers (copying tags, scanning hooks) are incidental
         it = ev.node.info.get("iter")
+        if isinstance(it, ast.Name):
+            # a local bound once to the range (`attempt_numbers = range(1, n + 1)`; `for attempt in attempt_numbers`)
+            fn = getattr(getattr(ev.cfg, "func", None), "node", None)
+            binds = [n.value for n in ast.walk(fn) if isinstance(n, ast.Assign) and len(n.targets) == 1 and isinstance(n.targets[0], ast.Name) and n.targets[0].id == it.id] if fn is not None else []
+            stores = [n for n in ast.walk(fn) if isinstance(n, ast.Name) and n.id == it.id and isinstance(n.ctx, (ast.Store, ast.Del))] if fn is not None else []
+            if len(binds) == 1 and len(stores) == 1:
+                it = binds[0]
         return isinstance(it, ast.Call) and isinstance(it.func, ast.Name) and it.func.id == "range"
 
     def callback_kinds(self, category: str, ev: Event) -> Iterable[str]:
